@@ -62,8 +62,11 @@ RuleOK(cfg) ==
        /\ Cardinality(Named(cfg.sel)) = 1
 
 \* a second WithRules rule, registered before or after the first
-Rule2Kinds == {"none", "nomatch-exact", "nomatch-prefix", "good-on-D"}
-Rule2OK(cfg) == cfg.rule2 \in {"none", "good-on-D"}
+\* ("dblstar-on-D": GET /cfg/{name=**} on D.Do - next to a first rule /cfg/{child.name} or /cfg/x it is a "**"
+\*  sibling of a "*" or literal branch, and must stay reachable through deeper URLs)
+Rule2Kinds == {"none", "nomatch-exact", "nomatch-prefix", "good-on-D", "dblstar-on-D"}
+Rule2Good == {"good-on-D", "dblstar-on-D"}
+Rule2OK(cfg) == cfg.rule2 \in {"none"} \cup Rule2Good
 
 HasRestBinding(cfg) == cfg.rule # "none" /\ RuleOK(cfg) /\ Named(cfg.sel) \cap MethodsC # {}
 
@@ -77,7 +80,7 @@ Accepts(cfg) ==
     /\ Rule2OK(cfg)
     \* a REST-only service needs at least one binding
     /\ EffProto(cfg) = "rest" => HasRestBinding(cfg)
-    /\ DProto(cfg) = "rest" => ((cfg.rule # "none" /\ RuleOK(cfg) /\ Named(cfg.sel) \cap MethodsD # {}) \/ cfg.rule2 = "good-on-D")
+    /\ DProto(cfg) = "rest" => ((cfg.rule # "none" /\ RuleOK(cfg) /\ Named(cfg.sel) \cap MethodsD # {}) \/ cfg.rule2 \in Rule2Good)
 
 Bound(cfg) == IF cfg.rule = "none" THEN {} ELSE Named(cfg.sel)
 =============================================================================
